@@ -73,10 +73,18 @@ class World:
                 self.descs[1]['c_opers'] = self.descs[0]['c_opers']
             n = int(rng.integers(4, 8))
             w1 = np.sort(rng.uniform(0.1, 5, n))
+            if rng.random() < 0.5:
+                w1[0] = 0.0          # the zero frequency (limit value of the first-order integral)
             # grid 2 has the length of grid 1; in every other world it is grid 1 up to a relative
             # shift of 3e-6 (equal "within tolerance", different as arrays: it is another grid)
             w2 = w1*(1 + 3e-6) if rng.random() < 0.5 else np.sort(rng.uniform(0.1, 5, n))
-            self.w = {1: w1, 2: w2, 3: np.sort(rng.uniform(0.1, 5, n + 2))}
+            w3 = np.sort(rng.uniform(0.1, 5, n + 2))
+            # an exact level splitting of a segment (resonance) in grid 3
+            Hs = gens.seg_hamiltonians(self.descs[0])
+            ev = np.linalg.eigvalsh(Hs[int(rng.integers(0, len(Hs)))])
+            if abs(ev[-1] - ev[0]) > 1e-3:
+                w3[int(rng.integers(0, len(w3)))] = float(ev[-1] - ev[0])
+            self.w = {1: w1, 2: w2, 3: w3}
         else:
             self.descs = descs
             self.w = {int(k): np.asarray(v, dtype=float) for k, v in grids.items()}
